@@ -29,6 +29,16 @@ func ByteReach(fn *ssa.Function, isByte func(ssa.Value) bool, target func(ssa.In
 	return out
 }
 
+// ByteReachLeaf is ByteReach with some values fixed by leaf (the byte that selected the branch under study).
+func ByteReachLeaf(fn *ssa.Function, isByte func(ssa.Value) bool, leaf func(ssa.Value) (int64, bool), target func(ssa.Instruction) bool) [256]bool {
+	var out [256]bool
+	for b := 0; b < 256; b++ {
+		ev := &byteEval{b: int64(b), isByte: isByte, leaf: leaf}
+		out[b] = ev.reach(fn, target)
+	}
+	return out
+}
+
 // DefaultByteVar: a value of type uint8 loaded from memory (an element of the input).
 func DefaultByteVar(v ssa.Value) bool {
 	u, ok := v.(*ssa.UnOp)
